@@ -7,6 +7,7 @@ package main
 // and the inner box of obj.ToShape().
 
 import (
+	"context"
 	"fmt"
 	"math"
 	"strconv"
@@ -14,13 +15,15 @@ import (
 
 	"oss.terrastruct.com/d2/d2compiler"
 	"oss.terrastruct.com/d2/d2graph"
+	"oss.terrastruct.com/d2/d2layouts"
+	"oss.terrastruct.com/d2/d2layouts/d2dagrelayout"
 	"oss.terrastruct.com/d2/d2target"
 	"oss.terrastruct.com/d2/lib/shape"
 	"oss.terrastruct.com/d2/lib/textmeasure"
 )
 
 func init() {
-	register(&Prop{ID: "C21", Module: "V.C21.Check", Gen: c21Gen, Quick: 2400, Thorough: 40000, Shard: 175})
+	register(&Prop{ID: "C21", Module: "V.C21.Check", Gen: c21Gen, Quick: 3200, Thorough: 40000, Shard: 230})
 }
 
 var c21Kinds = map[string]string{
@@ -55,6 +58,7 @@ type c21In struct {
 	stub       bool // pre-measured texts with chosen dimensions instead of the real ruler
 	sw, sh     int  // stub label dimensions
 	fields     int  // class fields / table columns
+	layout     bool // also run the real nested layout (dagre) and observe the size afterwards
 }
 
 func c21Quote(s string) string {
@@ -167,7 +171,7 @@ func c21Run(in c21In, r *Rng, class string) (cs Case) {
 		input["stub_label_dims"] = []int{in.sw, in.sh}
 	}
 	cs.Input = input
-	dummy := "Case KRect true false 0 0 0 0 0 None None false false 0 0 0 0 100 0 100 0 100 0 100 0"
+	dummy := "Case KRect true false 0 0 0 0 0 None None false false 0 0 0 0 100 0 100 0 100 0 100 0 100 0 100 0"
 	cs.Coq = dummy
 	defer func() {
 		if e := recover(); e != nil {
@@ -250,6 +254,7 @@ func c21Run(in c21In, r *Rng, class string) (cs Case) {
 		dh = "(Some " + coqZ(int64(dhz)) + ")"
 	}
 	ld := obj.LabelDimensions
+	sizedW, sizedH := obj.Width, obj.Height
 	withPad := dwz == 0 && dhz == 0 && dsl != d2target.ShapeText && obj.Label.Value != ""
 	content, err := obj.GetDefaultSize(mtexts, ruler, nil, nil, ld, withPad)
 	if err != nil {
@@ -279,12 +284,27 @@ func c21Run(in c21In, r *Rng, class string) (cs Case) {
 			}
 		}
 	}
-	cs.Coq = fmt.Sprintf("Case %s %s %s %s %s %s %s %s %s %s %s %s %s %s %s %s %s %s",
+	// "after layout": the same pipeline as d2lib.compile (LayoutNested with the dagre core layout)
+	lw2, lh2 := obj.Width, obj.Height
+	if in.layout {
+		err := d2layouts.LayoutNested(context.Background(), g, d2layouts.NestedGraphInfo(g.Root), d2dagrelayout.DefaultLayout, d2layouts.DefaultRouter)
+		if err != nil {
+			cs.ImplFail = []string{"layout: " + err.Error()}
+			return cs
+		}
+		lw2, lh2 = obj.Width, obj.Height
+		cs.Impl.(map[string]any)["after_layout"] = []float64{lw2, lh2}
+		if !c27Finite(lw2, lh2) {
+			cs.ImplFail = []string{"non-finite size after layout"}
+			return cs
+		}
+	}
+	cs.Coq = fmt.Sprintf("Case %s %s %s %s %s %s %s %s %s %s %s %s %s %s %s %s %s %s "+c27F(lw2)+" "+c27F(lh2),
 		kind, coqBool(obj.Label.Value == ""), coqBool(obj.Language != ""),
 		c27Z(int64(ld.Width)), c27Z(int64(ld.Height)), c27Z(int64(obj.Text().FontSize)),
 		c27Z(int64(content.Width)), c27Z(int64(content.Height)), dw, dh,
 		coqBool(obj.Icon != nil), coqBool(obj.Link != nil && obj.Tooltip != nil),
-		c27F(oc), c27F(os), c27F(obj.Width), c27F(obj.Height), c27F(ib.Width), c27F(ib.Height))
+		c27F(oc), c27F(os), c27F(sizedW), c27F(sizedH), c27F(ib.Width), c27F(ib.Height))
 	return cs
 }
 
@@ -350,7 +370,9 @@ func c21Gen(r *Rng, tier string, n int) []Case {
 		for li, l := range labels {
 			for _, d := range dims {
 				in := c21In{shape: s, label: l, w: d.w, h: d.h, fields: 3}
+				in.layout = li == 0 && (d.w == nil) == (d.h == nil)
 				out = append(out, c21Run(in, r, "corpus"))
+				in.layout = false
 				if li == 0 && d.w == nil && d.h == nil {
 					in.icon = true
 					out = append(out, c21Run(in, r, "corpus-icon"))
@@ -418,6 +440,10 @@ func c21Gen(r *Rng, tier string, n int) []Case {
 				in.sw, in.sh = r.Range(0, 600), r.Range(0, 600)
 			}
 			class += "-stubdims"
+		}
+		if r.Intn(12) == 0 {
+			in.layout = true
+			class += "-layout"
 		}
 		out = append(out, c21Run(in, r, class))
 	}
